@@ -115,6 +115,7 @@ def _run(rig, tx_delays, rx_delays, init_delay, chunks, rx_strings, rx_gaps,
     rx_gap = rx_gaps[0] if rx_gaps else 0
     rx_done = 0
     init_count = None
+    init_hold = [desc.get("init_hold", 0)]
     last_ctrl = 0
     app_sent = b""
     app_recv = b""
@@ -132,6 +133,14 @@ def _run(rig, tx_delays, rx_delays, init_delay, chunks, rx_strings, rx_gaps,
     # device does may change it
     neighbour = bytes((0xa5 + 7 * i) & 0xff or 1 for i in range(24))
     d[rig.outb_other:rig.outb_other + 24] = neighbour
+    # the working counters of the frame, from the harness's own parser
+    from .. import frames as _frames
+    wkcs = []
+    if desc.get("real_cycle"):
+        rig.sg.wkc_errors = 0
+        for g_ in _frames.parse(bytes(rig.sg.packet.sterile(3, 0x3333)),
+                                strict=False)[2][1:]:
+            wkcs.append((g_.wkc_pos, 1))
 
     for cyc in range(max_cycles or MAXCYC):
         ctrl = d[rig.outb]
@@ -149,7 +158,12 @@ def _run(rig, tx_delays, rx_delays, init_delay, chunks, rx_strings, rx_gaps,
         else:
             if status & 4 and connected_cycle is None:
                 connected_cycle = cyc
-            status &= ~4
+            # the terminal takes its time to withdraw init_accept after the
+            # controller has taken back its request
+            if status & 4 and init_hold[0] > 0:
+                init_hold[0] -= 1
+            else:
+                status &= ~4
             init_count = None
         # transmit direction (controller -> terminal)
         treq = ctrl & 1
@@ -201,7 +215,15 @@ def _run(rig, tx_delays, rx_delays, init_delay, chunks, rx_strings, rx_gaps,
         last_ctrl = ctrl
         d[rig.inb] = status
         # ---------------- device ----------------
-        dev.update()
+        if desc.get("real_cycle"):
+            # the way a received frame reaches the device
+            # (SyncGroupBase.run -> SyncGroup.update_devices)
+            for pos_, cnt_ in wkcs:
+                d[pos_:pos_ + 2] = struct.pack("<H", cnt_)
+            rig.sg.update_devices(bytes(d))
+            res.count("cycles_through_update_devices")
+        else:
+            dev.update()
         res.count("updates_checked_against_the_other_channel")
         if bytes(d[rig.outb_other:rig.outb_other + 24]) != neighbour:
             now = bytes(d[rig.outb_other:rig.outb_other + 24])
@@ -279,6 +301,8 @@ def run_shard(params):
                     init_rr=rng.choice([0, 0, 1]),
                     init_ta=rng.choice([0, 0, 1]),
                     prior=rng.choice([0, 0, 0, 5, 8]),
+                    init_hold=rng.choice([0, 0, 1, 2, 3]),
+                    real_cycle=rng.random() < 0.5,
                     init_delay=initd, chunks=[c.hex() for c in chunks],
                     rx_strings=[s.hex() for s in rxs])
         ok = run_history(channel, txd, [0], initd, chunks, rxs, rxg, res,
